@@ -93,6 +93,8 @@ fn pipelines() -> Vec<Pipeline> {
         ("long comments", vec!["^--\\[=*\\["]),
         ("two patterns", vec!["^--\\[\\[a", "b\\]\\]$"]),
         ("everything", vec![""]),
+        // anchored at the end of the comment: the line break (LF or CRLF) is not part of a comment
+        ("end anchored", vec!["c$", "^--!native$"]),
     ];
     let mut out = vec![Pipeline { name: "remove_spaces", rules: vec!["'remove_spaces'".to_owned()], except: None, prepended: "" }];
     // combinations with append_text_comment at the start (the three rules of the property in one pipeline)
@@ -172,7 +174,7 @@ fn check_a(src: &str, pipes: &[Pipeline]) -> (u64, u64, Vec<Violation>) {
                         None => lin.comments.iter().collect(),
                         Some(pats) => {
                             let res: Vec<Regex> = pats.iter().map(|p| Regex::new(p).unwrap()).collect();
-                            lin.comments.iter().filter(|c| res.iter().any(|r| r.is_match(&c.text))).collect()
+                            lin.comments.iter().filter(|c| res.iter().any(|r| r.is_match(&comment_text(c)))).collect()
                         }
                     };
                     let got: Vec<String> = lout.comments.iter().map(comment_text).collect();
@@ -182,13 +184,18 @@ fn check_a(src: &str, pipes: &[Pipeline]) -> (u64, u64, Vec<Violation>) {
                     let got_m = got.concat().replace('\r', "");
                     let want_m = want.concat().replace('\r', "");
                     let same = if p.prepended.is_empty() {
-                        got_m == want_m
+                        // comment by comment: two line comments written on one line become one comment (`--!strict--!native`)
+                        got.iter().map(|c| c.replace('\r', "")).collect::<Vec<_>>() == want.iter().map(|c| c.replace('\r', "")).collect::<Vec<_>>() && got_m == want_m
                     } else {
                         // the appended comment may sit before or after leading comments of the file: removing one
                         // occurrence of it must leave exactly the input's comment material
                         got_m.match_indices(p.prepended).any(|(i, _)| format!("{}{}", &got_m[..i], &got_m[i + p.prepended.len()..]) == want_m)
                     };
-                    if !same {
+                    if !same && p.prepended.is_empty() && got_m == want_m {
+                        // known finding: the text of every comment is there, but line comments that followed each other on
+                        // separate lines are written on one line and have become one comment
+                        Some(format!("line comments merged: comments are {:?}, expected {:?}", got, want))
+                    } else if !same {
                         Some(format!("comments are {:?}, expected {:?}", got, want))
                     } else {
                         None
@@ -210,6 +217,39 @@ fn check_a(src: &str, pipes: &[Pipeline]) -> (u64, u64, Vec<Violation>) {
 fn classify_a(src: &str, _out: &str, p: &Pipeline, problem: &str) -> Option<String> {
     if !p.prepended.is_empty() && lex(src.as_bytes(), Mode::Luau).ok().and_then(|l| l.tokens.first().map(|t| matches!(t.tok, Tok::Sym("@")))).unwrap_or(false) {
         return Some("start-comment-inserted-after-leading-attribute".to_owned());
+    }
+    // known finding (parser dependency): a line comment ends at a line feed only, so what follows a lone carriage return up
+    // to the next line feed is taken as part of the comment. Repair model: with every lone carriage return that ends a line
+    // comment replaced by a space (so that both readings agree on the extent of the comment) the same input passes the check
+    {
+        let mut model = src.to_owned();
+        let mut changed = false;
+        for _ in 0..8 {
+            let lexed = match lex(model.as_bytes(), Mode::Luau) {
+                Ok(l) => l,
+                Err(_) => break,
+            };
+            let at: Vec<usize> = lexed.comments.iter().filter(|c| !c.long && model.as_bytes().get(c.end) == Some(&b'\r') && model.as_bytes().get(c.end + 1) != Some(&b'\n')).map(|c| c.end).collect();
+            if at.is_empty() {
+                break;
+            }
+            let mut bytes = model.into_bytes();
+            for i in at {
+                bytes[i] = b' ';
+            }
+            model = String::from_utf8(bytes).unwrap_or_default();
+            changed = true;
+        }
+        if changed {
+            let (n, _, violations) = check_a(&model, std::slice::from_ref(p));
+            // (what remains wrong on the repaired input must itself be a listed finding, e.g. merged line comments)
+            if n > 0 && violations.iter().all(|v| v.finding.is_some()) {
+                return Some("line-comment-runs-to-the-line-feed-over-a-lone-carriage-return".to_owned());
+            }
+        }
+    }
+    if problem.starts_with("line comments merged") {
+        return Some("remove-spaces-writes-consecutive-line-comments-on-one-line".to_owned());
     }
     // the known defect only loses comment material: changed code tokens or output that does not lex are something else
     if !problem.starts_with("comments are") {
